@@ -294,7 +294,7 @@ def correspondence(pid, tier, seed):
     else:
         nt = sum(1 for c, r in pairs if len({e['name'] for e in c['elems']}) < len(c['elems']) or sum(1 for e in c['elems'] if e['kind'] == 'worm') >= 2 or len(c['calls']) > len(c['elems']))
     return dict(ok=not broken, evaluations=len(pairs), nontrivial=nt, samples=[dict(case=c) for c, r in pairs[:3]], rule=RULE[pid],
-                distribution=dict(outcomes=dist, skipped=len(cases) - len(pairs)), broken=broken, failing_cases=failing)
+                distribution=dict(outcomes=dist, skipped=len(cases) - len(pairs), rounding_level_only=len(rounding)), broken=broken, failing_cases=failing)
 
 
 # ------------------------------------------------------------------ search: the statements on the implementation
